@@ -15,6 +15,7 @@ package py
 import (
 	"bytes"
 	"fmt"
+	"math/big"
 	"strconv"
 	"strings"
 	"unicode"
@@ -97,7 +98,7 @@ func fieldsN(s string, n int) []string {
 	for _, c := range s {
 		//until we have covered the first N elements, multiple white-spaces are 'merged'
 		if n < 0 || len(out) < n {
-			if unicode.IsSpace(c) {
+			if isSpace(c) {
 				if len(cur) > 0 {
 					out = append(out, string(cur))
 					cur = []rune{}
@@ -107,7 +108,7 @@ func fieldsN(s string, n int) []string {
 			}
 			//until we see the next letter, after collecting the first N fields, continue to merge whitespaces
 		} else if len(out) == n && len(cur) == 0 {
-			if !unicode.IsSpace(c) {
+			if !isSpace(c) {
 				cur = append(cur, c)
 			}
 			//now that enough words have been collected, just copy into the last element
@@ -535,10 +536,29 @@ func (s String) slice(start, stop, length int) String {
 // None means the default (0 and length), negative values count from
 // the end and are clipped to 0 and end is clipped to length.  start
 // is not clipped to length so that the caller can tell start > end.
+// isSpace reports whether c is white space for str.split() and
+// str.strip(): what Unicode calls white space and the four ASCII
+// separators FS, GS, RS and US (as in CPython)
+func isSpace(c rune) bool {
+	return unicode.IsSpace(c) || (c >= 0x1c && c <= 0x1f)
+}
+
+// boundInt converts a start or end argument: like a slice bound, an
+// int too large for a machine word is clipped, not an overflow
+func boundInt(o Object) (int, error) {
+	if b, ok := o.(*BigInt); ok {
+		if (*big.Int)(b).Sign() < 0 {
+			return -(1 << 62), nil
+		}
+		return 1 << 62, nil
+	}
+	return IndexInt(o)
+}
+
 func sliceBounds(pystart, pyend Object, length int) (start, end int, err error) {
 	start, end = 0, length
 	if pystart != None {
-		if start, err = IndexInt(pystart); err != nil {
+		if start, err = boundInt(pystart); err != nil {
 			return 0, 0, err
 		}
 		if start < 0 {
@@ -549,7 +569,7 @@ func sliceBounds(pystart, pyend Object, length int) (start, end int, err error) 
 		}
 	}
 	if pyend != None {
-		if end, err = IndexInt(pyend); err != nil {
+		if end, err = boundInt(pyend); err != nil {
 			return 0, 0, err
 		}
 		if end > length {
@@ -784,7 +804,7 @@ func stripFunc(args Tuple) (func(rune) bool, error) {
 	if err != nil {
 		return nil, err
 	}
-	f := unicode.IsSpace
+	f := isSpace
 	switch v := pyval.(type) {
 	case String:
 		chars := []rune(string(v))
